@@ -30,7 +30,7 @@ def run(ctx):
         "threaded decoder: total_in at a fatal error depends on read-ahead and is not compared (status and output are)",
     ]
     ctx.run_shards(dec, ["--mode", "c06", "--corpus", corpus], 700 if quick else 7000, label="dec")
-    ctx.run_shards(rt, ["--mode", "c06enc"], 320 if quick else 3500, label="enc")
+    ctx.run_shards(rt, ["--mode", "c06enc"], 800 if quick else 8000, label="enc")
     c = ctx.counters
     for d in ("stream", "stream_mt", "auto", "alone", "lzip", "microlzma", "raw", "block", "index"):
         ctx.require("dec_" + d, c.get("dec_" + d, 0), 4)
